@@ -18,6 +18,7 @@ pub ghost enum FsEvent {
     Write { path: Seq<char> },
     Chown { path: Seq<char>, uid: Option<u32>, gid: Option<u32> },
     Lchown { path: Seq<char>, uid: Option<u32>, gid: Option<u32> },   // ownership of the path itself, a symbolic link not followed (lchown / fchownat AT_SYMLINK_NOFOLLOW)
+    Chmod { path: Seq<char>, mode: u32 },   // fchmod / chmod: the mode is set as given, the umask does not apply
     Rename { from: Seq<char>, to: Seq<char> },
     Remove { path: Seq<char> },
 }
